@@ -232,7 +232,7 @@ ImplRefine(prof, seq, neighbour, fix) ==
 
 PermsOf(S) == {f \in [1..Cardinality(S) -> S] : \A i, j \in DOMAIN f : i # j => f[i] # f[j]}
 (* f(pi(input)) = f(input) for every permutation pi of the input *)
-PermInvariant(F(_), S) == \A p, q \in PermsOf(S) : F(p) = F(q)
+PermInvariant(F(_), S) == Cardinality({F(p) : p \in PermsOf(S)}) <= 1
 
 (***************************************************************************)
 (* Part 2 -- hmmer.remove_overlapping                                       *)
